@@ -380,6 +380,8 @@ def run_random_history(binary, spec, workdir):
         l3.write_cache(A, cache)
         old = l3.Server(binary, cache, stub.port, threads=1, cache_all=cache_all)
         prev = ask_all(old, stub, reqs)
+        nfd = lambda: len(os.listdir("/proc/%d/fd" % old.pid))
+        fd0 = nfd()
         for k, st in enumerate(spec["steps"]):
             l3.write_cache(st["ds"], cache)
             stub.set_layout(st["ds"])            # exact coordinates of this step's stops (None-layout when no stop ever moved)
@@ -406,6 +408,14 @@ def run_random_history(binary, spec, workdir):
                 fail("the refreshed server died", phase="step %d (%s)" % (k + 1, st["kind"]), update=upd, exit_status=old.exit_status(), log=old.crash_report())
                 break
             prev = a1
+        if old.alive():
+            # reloading must not accumulate open files: five more full reloads of the last directory, then count
+            for _ in range(5):
+                update(old, "all")
+            fd1 = nfd() if old.alive() else fd0
+            if fd1 > fd0 + 2:
+                fail("the server holds %d open file descriptors after %d refreshes, %d before the first one: files opened by a reload are not closed"
+                     % (fd1, len(spec["steps"]) + 5, fd0), phase="descriptors", update="/updateCache?names=all")
     except Exception as e:
         import traceback
         fail("history could not be run: %s: %s" % (type(e).__name__, str(e)[:600]), phase="harness", traceback=traceback.format_exc()[-1500:])
